@@ -118,6 +118,9 @@ Section RecOp.
   Proof. rec_op_frame o. Qed.
 End RecOp.
 
+Lemma op_eq_DropDispatch {T} (o : @op T) : o = DropDispatch \/ o <> DropDispatch.
+Proof. destruct o; try (right; discriminate). left; reflexivity. Qed.
+
 (* ================================================================== C09 *)
 Section C09.
   Context {T : Type}.
@@ -450,4 +453,319 @@ Section C09.
       split; [|split; [exact H2|intros _; exact H3]].
       destruct H1 as [H1|H1]; [right; split; [rewrite Hid; exact H1|congruence]|left; exact H1].
   Qed.
+
+  Definition vals_or (a : activity) s s' : Prop :=
+    forall id o, sl_val (slotv (slots s') id) = Some o ->
+                 sl_val (slotv (slots s) id) = Some o \/ o = OConnErr a.
+
+  Lemma vals_or_trans a s1 s2 s3 : vals_or a s1 s2 -> vals_or a s2 s3 -> vals_or a s1 s3.
+  Proof. intros H1 H2 id o H. destruct (H2 _ _ H) as [H'|H']; [apply H1, H'|right; exact H']. Qed.
+  Lemma vals_or_sub a s s' : vals_sub s s' -> vals_or a s s'.
+  Proof. intros H id o Hv. left. apply H, Hv. Qed.
+  Lemma vals_or_send a s id : vals_or a s (slot_send s id (OConnErr a)).
+  Proof. intros id' o H. apply val_send in H. destruct H as [H|[_ ->]]; [left; exact H|right; reflexivity]. Qed.
+
+  Lemma slots_q_close s : slots (q_close s) = slots s.
+  Proof.
+    unfold q_close. destruct (rx_closed s); [reflexivity|]. cbn [slots upd_q].
+    apply (cf_slots _ _ (proj2 (proj2 (fold_set_phase_spec PAcqClosed (waiters s) s)))).
+  Qed.
+
+  Lemma slots_q_poll_recv s r s1 : q_poll_recv s = (r, s1) -> slots s1 = slots s.
+  Proof.
+    unfold q_poll_recv. destruct (queue s).
+    - destruct (Nat.eqb _ _); [intros [= _ <-]; reflexivity|]. destruct (_ && _); intros [= _ <-]; reflexivity.
+    - intros [= _ <-]. unfold release_permit. cbn [waiters upd_q].
+      destruct (waiters s); [reflexivity|]. rewrite set_phase_alt. reflexivity.
+  Qed.
+
+  Lemma vals_or_shut_down s a b s' : shut_down s a = (b, s') -> vals_or a s s'.
+  Proof.
+    unfold shut_down. intro H.
+    assert (V1 : vals_or a s (complete_all (q_close s) (OConnErr a))).
+    { unfold complete_all.
+      assert (G : forall l (s0 : cstate),
+                  vals_or a s0 (fold_left (fun acc (p : N * ifentry) => slot_send acc (fst p) (OConnErr a)) l s0)).
+      { induction l as [|p r IH]; intro s0; cbn [fold_left]; [apply vals_or_sub, vals_sub_refl|].
+        eapply vals_or_trans; [apply vals_or_send|apply IH]. }
+      eapply vals_or_trans; [|apply G]. apply vals_or_sub, vals_sub_slots.
+      cbn [slots upd_if]. apply slots_q_close. }
+    eapply vals_or_trans; [exact V1|]. revert H.
+    generalize (S (length (queue (complete_all (q_close s) (OConnErr a))))).
+    generalize (complete_all (q_close s) (OConnErr a)).
+    intros s0 f. revert b s' s0. induction f as [|f IH]; intros b s' s0; cbn [drain_loop].
+    - intros [= _ <-]. apply vals_or_sub, vals_sub_refl.
+    - destruct (q_poll_recv s0) as [rv s1] eqn:E1. pose proof (slots_q_poll_recv _ _ _ E1) as E.
+      destruct rv as [q| |]; try (intros [= _ <-]; apply vals_or_sub, vals_sub_slots, E).
+      intro H. apply IH in H. eapply vals_or_trans; [|exact H].
+      eapply vals_or_trans; [apply vals_or_sub, vals_sub_slots, E|apply vals_or_send].
+  Qed.
+
+  (* ---------------------------------------------------------------- the relation *)
+  Record R09 m s : Prop := {
+    r_err : m_first_err m = terminal s;
+    r_disp : m_disp m = finished s;
+    r_drop : m_disp_dropped m = dropped s;
+    r_sf : forall id, sl_val (slotv (slots s) id) = Some OSendErr -> failed_in id (m_sent m) = true }.
+
+  Lemma R09_vals m s s' :
+    R09 m s -> terminal s' = terminal s -> finished s' = finished s -> dropped s' = dropped s ->
+    vals_sub s s' -> R09 m s'.
+  Proof.
+    intros [] E1 E2 E3 V. constructor; rewrite ?E1, ?E2, ?E3; try assumption.
+    intros id H. apply r_sf0, V, H.
+  Qed.
+
+  Lemma R09_meq m m' s :
+    R09 m s -> m_first_err m' = m_first_err m -> m_disp m' = m_disp m ->
+    m_disp_dropped m' = m_disp_dropped m -> m_sent m' = m_sent m -> R09 m' s.
+  Proof. intros [] E1 E2 E3 E4. constructor; rewrite ?E1, ?E2, ?E3, ?E4; assumption. Qed.
+
+  (* ---------------------------------------------------------------- one dispatch poll *)
+  Lemma plog_shut_down s a b s' : shut_down s a = (b, s') -> plog s' = plog s.
+  Proof. intro H. pose proof (IFrame_shut_down s a) as F. rewrite H in F. apply F. Qed.
+
+  Lemma c09_poll_dispatch m s0 f r s1 :
+    poll_dispatch tp f s0 = (r, s1) -> plog s0 = [] -> R09 m s0 -> Inv s0 -> alive s0 ->
+    v09 (fst (chk_calls maxif m (plog s1))) = true /\
+    m_first_err (mrun m (plog s1)) = terminal s1 /\
+    (forall id, sl_val (slotv (slots s1) id) = Some OSendErr ->
+                failed_in id (m_sent (mrun m (plog s1))) = true) /\
+    match r with
+    | DReady (DErr a) => terminal s1 = Some a
+    | DReady DOk => terminal s1 = None
+    | _ => True
+    end.
+  Proof.
+    unfold poll_dispatch. intros H Hp [Re Rd Rr Rs] Iv Hal. destruct (terminal s0) as [a|] eqn:Et.
+    - destruct (shut_down s0 a) as [b s'] eqn:E1.
+      pose proof (plog_shut_down _ _ _ _ E1) as P1. pose proof (PFrame_shut_down _ _ _ _ E1) as F1.
+      pose proof (vals_or_shut_down _ _ _ _ E1) as V1.
+      assert (K : plog s1 = [] /\ terminal s1 = Some a /\ vals_or a s0 s1).
+      { destruct b; injection H as _ <-; (split; [congruence|split; [rewrite (pf_terminal _ _ F1); exact Et|exact V1]]). }
+      destruct K as (K1 & K2 & K3). rewrite K1. cbn [chk_calls fst mrun fold_left].
+      split; [reflexivity|]. split; [congruence|]. split.
+      + intros id Hv. destruct (K3 _ _ Hv) as [Hv'|[=]]. apply Rs, Hv'.
+      + destruct b; injection H as <- _; [exact K2|exact I].
+    - destruct (run_loop tp f s0) as [rr sA] eqn:E1.
+      pose proof (run_loop_msteps _ _ _ _ _ E1) as M1.
+      destruct (msteps_log _ _ _ M1) as (seg & Eseg & Hsh). rewrite Hp in Eseg. cbn [app] in Eseg.
+      pose proof (msteps_PFrame _ _ _ _ M1) as F1.
+      assert (EtA : terminal sA = None) by (rewrite (pf_terminal _ _ F1); exact Et).
+      assert (Hm : m_first_err m = None) by congruence.
+      assert (SFA : forall id, sl_val (slotv (slots sA) id) = Some OSendErr ->
+                     failed_in id (m_sent (mrun m (plog sA))) = true).
+      { intros id Hv. rewrite failed_in_mrun. destruct (msteps_val _ _ _ id _ M1 Hv) as [Hv0|Hw].
+        - rewrite (Rs id Hv0). reflexivity.
+        - cbn [written] in Hw. rewrite Hw. apply orb_true_r. }
+      destruct rr as [|a| |].
+      + injection H as <- <-. rewrite Eseg. destruct (v09_shape maxif m _ _ Hm Hsh) as [V E].
+        cbn [rerr] in E. rewrite <- Eseg. rewrite Eseg at 1 2. split; [exact V|].
+        split; [rewrite E, EtA; reflexivity|]. split; [exact SFA|exact EtA].
+      + destruct (shut_down (upd_term sA (Some a)) a) as [b s'] eqn:E2.
+        pose proof (plog_shut_down _ _ _ _ E2) as P2. pose proof (PFrame_shut_down _ _ _ _ E2) as F2.
+        pose proof (vals_or_shut_down _ _ _ _ E2) as V2. cbn [plog upd_term] in P2.
+        assert (K : plog s1 = plog sA /\ terminal s1 = Some a /\ vals_or a sA s1).
+        { destruct b; injection H as _ <-; (split; [exact P2|split; [rewrite (pf_terminal _ _ F2); reflexivity|exact V2]]). }
+        destruct K as (K1 & K2 & K3). rewrite K1, Eseg.
+        destruct (v09_shape maxif m _ _ Hm Hsh) as [V E]. cbn [rerr] in E.
+        split; [exact V|]. split; [rewrite E, K2; reflexivity|]. split.
+        * intros id Hv. destruct (K3 _ _ Hv) as [Hv'|[=]]. rewrite <- Eseg. apply SFA, Hv'.
+        * destruct b; injection H as <- _; [exact K2|exact I].
+      + injection H as <- <-. rewrite Eseg. destruct (v09_shape maxif m _ _ Hm Hsh) as [V E].
+        cbn [rerr] in E. split; [exact V|]. split; [rewrite E, EtA; reflexivity|].
+        split; [rewrite <- Eseg; exact SFA|exact I].
+      + injection H as <- <-. rewrite Eseg. destruct (v09_shape maxif m _ _ Hm Hsh) as [V E].
+        cbn [rerr] in E. split; [exact V|]. split; [rewrite E, EtA; reflexivity|].
+        split; [rewrite <- Eseg; exact SFA|exact I].
+  Qed.
+
+  (* ---------------------------------------------------------------- one op *)
+  Lemma vals_sub_step s (o : op) s' os :
+    step tp fuel_of s o = (s', os) -> o <> PollDispatch -> vals_sub s s'.
+  Proof.
+    destruct o; cbn [step]; intros H N1; try congruence.
+    - injection H as <- _. destruct (nth_error _ _) as [[|]|]; apply vals_sub_slots; reflexivity.
+    - injection H as <- _. destruct (nth_error _ _) as [[|]|]; apply vals_sub_slots; reflexivity.
+    - injection H as <- _. apply vals_sub_slots; reflexivity.
+    - destruct (poll_call s i) as [r s1] eqn:E. injection H as <- _. eapply vals_sub_poll_call, E.
+    - injection H as <- _. destruct (option_map _ _) as [[]|];
+        try (eapply vals_sub_trans; [apply vals_sub_guard_close|apply vals_sub_guard_cancel]).
+      apply vals_sub_refl.
+    - injection H as <- _. destruct (option_map _ _) as [[]|]; try apply vals_sub_guard_close.
+      apply vals_sub_refl.
+    - injection H as <- _. apply vals_sub_guard_cancel.
+    - injection H as <- _. destruct (dropped s); [apply vals_sub_refl|apply vals_sub_drop_dispatch].
+    - injection H as <- _. apply vals_sub_slots; reflexivity.
+    - injection H as <- _. apply vals_sub_slots; reflexivity.
+  Qed.
+
+  Lemma drop_dispatch_frame s :
+    terminal (drop_dispatch s) = terminal s /\ finished (drop_dispatch s) = finished s /\
+    dropped (drop_dispatch s) = true.
+  Proof.
+    unfold drop_dispatch. cbn [terminal finished dropped upd_fin upd_cancels upd_if upd_q].
+    pose proof (TFrame_P _ _ (TFrame_fold_slot_tx_drop (fun p : N * ifentry => fst p)
+      (inflight (fold_left (fun acc q => slot_tx_drop acc (q_id q)) (queue (q_close s)) (q_close s)))
+      (fold_left (fun acc q => slot_tx_drop acc (q_id q)) (queue (q_close s)) (q_close s)))) as F3.
+    pose proof (TFrame_P _ _ (TFrame_fold_slot_tx_drop q_id (queue (q_close s)) (q_close s))) as F2.
+    pose proof (if_p _ _ (IFrame_q_close s)) as F1.
+    rewrite (pf_terminal _ _ F3), (pf_terminal _ _ F2), (pf_terminal _ _ F1).
+    rewrite (pf_finished _ _ F3), (pf_finished _ _ F2), (pf_finished _ _ F1). auto.
+  Qed.
+
+  Lemma R09_nil_op m s (o : op) :
+    R09 m s -> snd (step tp fuel_of s o) = [] -> o <> PollDispatch ->
+    R09 (rec_op m o) (fst (step tp fuel_of s o)).
+  Proof.
+    intros R E N1. destruct (step tp fuel_of s o) as [s' os] eqn:Es. cbn [fst snd] in *.
+    pose proof (vals_sub_step _ _ _ _ Es N1) as V.
+    destruct (op_eq_DropDispatch o) as [->|N2].
+    - cbn [step] in Es. injection Es as <- _. destruct R as [Re Rd Rr Rs].
+      destruct (dropped s) eqn:Ed.
+      + constructor; rewrite ?rec_op_first_err, ?rec_op_disp, ?rec_op_disp_dropped, ?rec_op_sent;
+          try assumption. congruence.
+      + destruct (drop_dispatch_frame s) as (F1 & F2 & F3).
+        constructor; rewrite ?rec_op_first_err, ?rec_op_disp, ?rec_op_disp_dropped, ?rec_op_sent,
+          ?F1, ?F2, ?F3; try assumption; try reflexivity.
+        intros id H. apply Rs, V, H.
+    - pose proof (UFrame_step tp fuel_of _ _ _ _ Es N1 N2) as F.
+      eapply R09_vals; [|apply F|apply F|apply F|exact V].
+      eapply R09_meq; [exact R|apply rec_op_first_err|apply rec_op_disp| |apply rec_op_sent].
+      rewrite rec_op_disp_dropped. destruct o; try reflexivity. congruence.
+  Qed.
+
+  Lemma step_nil_obs s (o : op) :
+    (forall i, o <> PollCall i) -> o <> PollDispatch -> snd (step tp fuel_of s o) = [].
+  Proof.
+    destruct o; intros H1 H2; try reflexivity; try congruence.
+  Qed.
+
+  Lemma c09_step m s (o : op) :
+    sim m s -> N.of_nat (S (length (m_polled m))) < two64 -> Inv s -> R09 m s ->
+    v09 (fst (chk_obs maxif o m (snd (step tp fuel_of s o)))) = true /\
+    R09 (snd (chk_obs maxif o m (snd (step tp fuel_of s o)))) (fst (step tp fuel_of s o)).
+  Proof.
+    intros HS Hw Iv R.
+    pose proof (sim_step tp fuel_of maxif m s o HS Hw) as HS'.
+    assert (Nil : forall o' : op, (forall i, o' <> PollCall i) -> o' <> PollDispatch ->
+              v09 (fst (chk_obs maxif o' m (snd (step tp fuel_of s o')))) = true /\
+              R09 (snd (chk_obs maxif o' m (snd (step tp fuel_of s o')))) (fst (step tp fuel_of s o'))).
+    { intros o' H1 H2. pose proof (step_nil_obs s o' H1 H2) as E. rewrite E, chk_obs_nil. cbn [fst snd].
+      split; [reflexivity|]. apply R09_nil_op; assumption. }
+    destruct o; try (apply Nil; [intros j; discriminate|discriminate]).
+    - (* PollCall *)
+      clear Nil. cbn [step] in *. destruct (poll_call s i) as [r s'] eqn:E.
+      pose proof (UFrame_poll_call s i) as F. rewrite E in F. cbn [snd] in F.
+      pose proof (vals_sub_poll_call _ _ _ _ E) as V.
+      assert (R1 : R09 (rec_op (T:=T) m (PollCall i)) s').
+      { eapply R09_vals; [|apply F|apply F|apply F|exact V].
+        eapply R09_meq; [exact R|apply rec_op_first_err|apply rec_op_disp| |apply rec_op_sent].
+        rewrite rec_op_disp_dropped. reflexivity. }
+      set (m1 := rec_op (T:=T) m (PollCall i)) in *.
+      destruct r as [|out|]; cbn [fst snd chk_obs] in *.
+      + (* pending *)
+        split; [|exact R1]. cbn [v09]. apply negb_true_iff.
+        unfold m1. rewrite rec_op_disp, rec_op_disp_dropped, (r_disp _ _ R), (r_drop _ _ R).
+        destruct (finished s) as [[|a]|] eqn:Ef; destruct (dropped s) eqn:Ed; try reflexivity; exfalso;
+          (eapply poll_call_not_pending; [exact E|exact Iv|]); intros [H1 H2]; try congruence.
+        eapply H2; reflexivity.
+      + (* done *)
+        split.
+        * destruct (poll_call_done _ _ _ _ E) as (Ho & Hp & Hi).
+          unfold chk_done. cbn [v09].
+          destruct out as [v|k| | |a|]; try reflexivity.
+          -- (* OSendErr *)
+             destruct Ho as [[=]|[Hv Hn]]. specialize (Hi Hn).
+             apply (failed_in_sent_for m1 i (idl (calls s) i)).
+             ++ destruct HS' as [C' _ _].
+                unfold phl in Hp. destruct (nth_error (calls s') i) as [c'|] eqn:Ec'; [|discriminate].
+                cbn [option_map] in Hp. injection Hp as Hp.
+                pose proof (sc_phase _ _ C' _ _ Ec') as D. rewrite Hp in D.
+                pose proof (d_polled _ _ _ D true eq_refl) as Hin. apply mem_nat_In in Hin.
+                pose proof (sc_id _ _ C' _ _ Ec' Hin) as Hid.
+                rewrite <- Hi. unfold idl at 1. rewrite Ec'. rewrite <- Hid. reflexivity.
+             ++ unfold m1. rewrite rec_op_sent. apply (r_sf _ _ R), Hv.
+          -- (* OConnErr *)
+             destruct Ho as [[=]|[Hv Hn]]. unfold m1. rewrite rec_op_first_err, (r_err _ _ R).
+             rewrite (i_se _ _ Iv _ _ Hv). apply activity_eqb_refl.
+        * eapply R09_meq; [exact R1|reflexivity..].
+      + split; [reflexivity|exact R1].
+    - (* PollDispatch *)
+      clear Nil. cbn [step] in *.
+      destruct (finished s) as [d|] eqn:Ef; [cbn; split; [reflexivity|exact R]|].
+      destruct (dropped s) eqn:Ed; [cbn; split; [reflexivity|exact R]|].
+      set (s0 := upd_tr s (tr s) (fused s) []) in *.
+      destruct (poll_dispatch tp (fuel_of s0) s0) as [r s1] eqn:E.
+      assert (R0 : R09 m s0) by (destruct R; constructor; assumption).
+      assert (I0 : Inv s0) by (eapply InvX_vframe; [|exact Iv]; constructor; reflexivity).
+      assert (Hal0 : alive s0) by (split; cbn; [exact Ed|rewrite Ef; discriminate]).
+      destruct (c09_poll_dispatch m s0 _ _ _ E eq_refl R0 I0 Hal0) as (V & Ee & Sf & Hr).
+      assert (PF : finished s1 = finished s0 /\ dropped s1 = dropped s0).
+      { revert E. unfold poll_dispatch. destruct (terminal s0) as [a|].
+        - destruct (shut_down s0 a) as [b sx] eqn:Ex. apply PFrame_shut_down in Ex.
+          destruct b; intros [= _ <-]; split; apply Ex.
+        - destruct (run_loop tp (fuel_of s0) s0) as [rr sx] eqn:Ex. apply PFrame_run_loop in Ex.
+          destruct rr as [|a| |]; try (intros [= _ <-]; split; apply Ex).
+          destruct (shut_down (upd_term sx (Some a)) a) as [b sy] eqn:Ey. apply PFrame_shut_down in Ey.
+          destruct b; intros [= _ <-]; (split; [rewrite (pf_finished _ _ Ey)|rewrite (pf_dropped _ _ Ey)]);
+            apply Ex. }
+      destruct PF as [PF1 PF2]. cbn [finished dropped upd_tr] in PF1, PF2.
+      unfold gauges. cbn [app fst snd chk_obs rec_op].
+      pose proof (chk_calls_snd maxif m (plog s1)) as Esnd.
+      destruct (chk_calls maxif m (plog s1)) as [v m2]. cbn [fst snd] in V, Esnd. subst m2.
+      destruct (c_poll _ _ _) as [okc c2]. cbn [fst snd vand v09]. rewrite V. cbn [andb]. split.
+      * destruct r as [[|a]| |]; try reflexivity.
+        -- rewrite Ee, Hr. reflexivity.
+        -- rewrite Ee, Hr. apply activity_eqb_refl.
+      * constructor; cbn [m_first_err m_disp m_disp_dropped m_sent upd_m].
+        -- rewrite Ee. destruct r; reflexivity.
+        -- rewrite mrun_disp. destruct r; cbn [finished upd_tr upd_fin]; [reflexivity|..];
+             rewrite PF1, <- Ef; apply (r_disp _ _ R).
+        -- rewrite mrun_disp_dropped. destruct r; cbn [dropped upd_tr upd_fin]; rewrite PF2, <- Ed;
+             apply (r_drop _ _ R).
+        -- destruct r; exact Sf.
+  Qed.
+
+  (* ---------------------------------------------------------------- every op list *)
+  Lemma c09_run (ops : list op) : forall m s,
+    sim m s -> N.of_nat (length (m_polled m) + length ops) < two64 -> Inv s -> R09 m s ->
+    v09 (chk_run maxif m ops (fst (run_from tp fuel_of s ops))) = true.
+  Proof.
+    induction ops as [|o ops IH]; intros m s HS Hw Iv R; cbn [run_from chk_run fst]; [reflexivity|].
+    assert (Hw1 : N.of_nat (S (length (m_polled m))) < two64) by (cbn [length] in Hw; lia).
+    destruct (c09_step m s o HS Hw1 Iv R) as [V R'].
+    pose proof (sim_step tp fuel_of maxif m s o HS Hw1) as HS'.
+    pose proof (polled_chk_obs_le maxif m o (snd (step tp fuel_of s o))) as Hle.
+    assert (Iv' : Inv (fst (step tp fuel_of s o))).
+    { destruct (step tp fuel_of s o) as [s1 l] eqn:Es. cbn [fst].
+      eapply (Inv_step tp fuel_of); [exact Es| |exact Iv].
+      rewrite (sc_next _ _ (sim_c _ _ HS)). lia. }
+    destruct (step tp fuel_of s o) as [s1 l]. cbn [fst snd] in *.
+    destruct (run_from tp fuel_of s1 ops) as [ls s2] eqn:Er. cbn [fst].
+    destruct (chk_obs maxif o m l) as [v m']. cbn [fst snd] in *. cbn [vand v09].
+    rewrite V. cbn [andb].
+    specialize (IH m' s1 HS'). rewrite Er in IH. apply IH; [|exact Iv'|exact R'].
+    cbn [length] in Hw. lia.
+  Qed.
+
+  Lemma Inv_init t0 qcap mif : Inv (init (T:=T) t0 qcap mif).
+  Proof.
+    assert (E : forall i, phl (@nil call) i = None) by (intros [|i]; reflexivity).
+    constructor; [constructor|constructor|..]; cbn; try (intros i; rewrite E); try discriminate;
+      try tauto; try constructor.
+    - intros i j. rewrite E. discriminate.
+    - left. split; [reflexivity|discriminate].
+  Qed.
+
+  Lemma R09_init t0 qcap mif : R09 m0 (init (T:=T) t0 qcap mif).
+  Proof. constructor; cbn; try reflexivity. discriminate. Qed.
 End C09.
+
+Theorem c09_contained_and_reported {T : Type} : @stmt_c09 T.
+Proof.
+  intros tp fuel_of t0 qcap maxif ops Hw. unfold c09_ok, monitors, client_trace.
+  apply c09_run; [apply sim_init| |apply Inv_init|apply R09_init].
+  unfold no_wrap in Hw. cbn. unfold two64. lia.
+Qed.
+Print Assumptions c09_contained_and_reported.
